@@ -51,3 +51,20 @@ def build(ctx, r, n, tag, **kw):
     """Assembles n objects + main; returns list of object paths (main first)."""
     srcs = [gen_main(r, n, kw.get("fns_per_obj", 3), start_stop=kw.get("start_stop", True))] + gen_sources(r, n, **kw)
     return pmap(lambda t: tools.assemble(ctx, t[1], name=f"{tag}-{t[0]}"), list(enumerate(srcs)))
+
+
+def build_pingpong(ctx, r, pairs, chain, tag):
+    """Pairs of objects whose functions call each other alternately (a_0 -> b_0 -> a_1 -> b_1 ...), each
+    function in its own section: with one file per group every hop is a cross-group request that
+    arrives just as the requesting group runs out of work - the hand-off window of the slot protocol."""
+    srcs = ['.globl _start\n.section .text._start,"ax",@progbits\n_start:\n' +
+            "".join(f"    call pa{p}_0\n" for p in range(pairs)) + "    mov $60,%eax\n    xor %edi,%edi\n    syscall\n"]
+    for p in range(pairs):
+        a, b = [], []
+        for k in range(chain):
+            a.append(f'.section .text.pa{p}_{k},"ax",@progbits\n.globl pa{p}_{k}\npa{p}_{k}:\n    call pb{p}_{k}\n    ret\n')
+            nxt = f"    call pa{p}_{k + 1}\n" if k + 1 < chain else ""
+            b.append(f'.section .text.pb{p}_{k},"ax",@progbits\n.globl pb{p}_{k}\npb{p}_{k}:\n{nxt}    ret\n')
+        srcs.append("".join(a))
+        srcs.append("".join(b))
+    return pmap(lambda t: tools.assemble(ctx, t[1], name=f"{tag}-{t[0]}"), list(enumerate(srcs)))
